@@ -9,6 +9,8 @@ package main
 //   * the condition chain with which one finished goroutine of runAndMergeResults is classified
 //     and the order of the two tests after wg.Wait()
 //   * the stages checkStates replays to newly created states, with the slice each runs over
+//   * every assignment to the Quarantine field of a message's metadata anywhere in the package
+//     (function, left-hand side) and the value assigned: the model's flag is only ever raised
 //
 // Step codes: 1 checkBody(global checks)  2 checkBody(source block checks)
 //             3 checkBody(blk.checks) inside `range dd.rcptModifiersState`
@@ -24,6 +26,7 @@ import (
 	"go/token"
 	"os"
 	"path/filepath"
+	"sort"
 	"strings"
 )
 
@@ -215,6 +218,65 @@ func c06Calls(repo, out string) error {
 		return false
 	})
 
+	// writes to MsgMetadata.Quarantine (or to the whole shared metadata object) in the package
+	var sites, values []string
+	dir := filepath.Dir(pp)
+	ents, err := os.ReadDir(dir)
+	if err != nil {
+		return err
+	}
+	var names []string
+	for _, e := range ents {
+		if strings.HasSuffix(e.Name(), ".go") && !strings.HasSuffix(e.Name(), "_test.go") {
+			names = append(names, e.Name())
+		}
+	}
+	sort.Strings(names)
+	for _, name := range names {
+		f, err := parser.ParseFile(fset, filepath.Join(dir, name), nil, 0)
+		if err != nil {
+			return err
+		}
+		for _, d := range f.Decls {
+			fd, ok := d.(*ast.FuncDecl)
+			if !ok || fd.Body == nil {
+				continue
+			}
+			ast.Inspect(fd.Body, func(x ast.Node) bool {
+				as, ok := x.(*ast.AssignStmt)
+				if !ok {
+					return true
+				}
+				for i, l := range as.Lhs {
+					hit := false
+					switch v := l.(type) {
+					case *ast.SelectorExpr:
+						base := c06Str(fset, v.X)
+						last := base[strings.LastIndex(base, ".")+1:]
+						hit = v.Sel.Name == "Quarantine" && strings.Contains(strings.ToLower(last), "meta")
+					case *ast.StarExpr:
+						base := c06Str(fset, v.X)
+						last := base[strings.LastIndex(base, ".")+1:]
+						hit = strings.Contains(strings.ToLower(last), "meta")
+					}
+					if !hit {
+						continue
+					}
+					val := "?"
+					if len(as.Rhs) == len(as.Lhs) {
+						val = c06Str(fset, as.Rhs[i])
+					}
+					if as.Tok != token.ASSIGN {
+						val = as.Tok.String() + " " + val
+					}
+					sites = append(sites, fd.Name.Name+": "+c06Str(fset, l))
+					values = append(values, val)
+				}
+				return true
+			})
+		}
+	}
+
 	var b strings.Builder
 	b.WriteString("-- GENERATED by /verif/tools/extract c06calls from the current /repo working tree. Do not edit.\n")
 	b.WriteString("namespace MaddyVerif.Generated.C06Calls\n\n")
@@ -244,6 +306,8 @@ func c06Calls(repo, out string) error {
 	strs("mergeOnce", once)
 	strs("mergeAfterWait", after)
 	strs("replayGroups", replay)
+	strs("flagWriteSites", sites)
+	strs("flagWriteValues", values)
 	b.WriteString("end MaddyVerif.Generated.C06Calls\n")
 	content := b.String()
 	if old, err := os.ReadFile(out); err == nil && string(old) == content {
